@@ -1780,7 +1780,7 @@ V(id='c43-sinpi-falls-through', prop='C43', file='mpmath/math2.py',
   old="    if n == 2: return -math.sin(r)\n    return -math.cos(r)", new="    if n == 2: return -math.sin(r)\n    if n == 3: return -math.cos(r)",
   expect='fire:F-R7:_sinpi_real')
 V(id='c43-cbrt-uncorrected', prop='C43', file='mpmath/math2.py',
-  old="    if y:\n        # the exponent 1/3 is rounded: one Newton step removes the error\n        y -= (y*y*y - x)/(3*y*y)\n",
+  old="    if y and not cmath.isinf(y):\n        # the exponent 1/3 is rounded: one Newton step removes the error\n        y -= (y*y*y - x)/(3*y*y)\n",
   new="", expect='fire:F-R8:_cbrt')
 V(id='c43-slot-removed', prop='C43', file='mpmath/ctx_fp.py',
   old="    acosh = staticmethod(math2.acosh)\n", new="", expect='fire:F-R4:FPContext')
@@ -2937,3 +2937,18 @@ V(id='c38-eps-evaluated-by-mpf', prop='C38', file='mpmath/ctx_mp_python.py',
 V(id='c38-benign-eps-test-reordered', prop='C38', file='mpmath/ctx_iv.py',
   old="    if isinstance(x, _constant) and prec and not x.contextual:\n", new="    if prec and isinstance(x, _constant) and not x.contextual:\n",
   expect='silent')
+
+# ---- C43 F-R16 / F-R17 (regressions of 493258d and 9e55673; fourth C13 hunt; fixes a55d7af, 86b2c3c) ----
+V(id='c43-pi-shortcut-takes-infinity', prop='C43', file='mpmath/math2.py',
+  old="        return 0, x - x\n", new="        return 0, 0.0\n", expect='fire:F-R16:_reduce_half')
+V(id='c43-benign-pi-shortcut-isinf-guard', prop='C43', file='mpmath/math2.py',
+  old="    if x >= 9007199254740992.0:\n        # an even integer (infinity: no value)\n        return 0, x - x\n",
+  new="    if math.isinf(x):\n        return 0, x - x\n    if x >= 9007199254740992.0:\n        return 0, 0.0\n", expect='silent')
+V(id='c43-cbrt-newton-at-infinity', prop='C43', file='mpmath/math2.py',
+  old="    if y and not cmath.isinf(y):\n", new="    if y:\n", expect='fire:F-R17:_cbrt')
+V(id='c43-benign-cbrt-newton-isfinite', prop='C43', file='mpmath/math2.py',
+  old="    if y and not cmath.isinf(y):\n", new="    if y and cmath.isfinite(y):\n", expect='silent')
+V(id='c43-nthroot-newton-unguarded', prop='C43', file='mpmath/math2.py',
+  old="def nthroot(x, n):\n    r = 1./n\n    try:\n        return float(x) ** r\n",
+  new="def nthroot(x, n):\n    r = 1./n\n    try:\n        y = float(x) ** r\n        if y:\n            y -= (y**n - x)/(n*y**(n-1))\n        return y\n",
+  expect='fire:F-R17:nthroot')
